@@ -260,6 +260,25 @@ int main(int argc, char **argv) { int n = argc > 1 ? atoi(argv[1]) : 3;
 """}, [["10"], ["4"], ["7"]]))
 
 
+def far_switch_program(ncases=80):
+    """a function with more than 64 basic blocks: a switch with `ncases` one-line cases whose `break`s all jump to the
+    block after the switch, which starts a line carried by several blocks (a one-line loop): that line is entered by
+    arcs from blocks whose numbers are 64 and more below the numbers of the line's own blocks"""
+    cases = "\n".join("    case %d: r += %d; break;" % (k, k % 7 + 1) for k in range(ncases))
+    src = ("#include <stdlib.h>\n"
+           "int far(int x) { int r = 0;\n"
+           "  switch (x) {\n" + cases + "\n    default: r = 1;\n  }\n"
+           "  for (int i = 0; i < 2; i++) { if (i & 1) r++; else r--; }\n"
+           "  return r; }\n"
+           "int main(int argc, char **argv) { int n = argc > 1 ? atoi(argv[1]) : 3, s = 0;\n"
+           "  for (int k = 0; k < n; k++) s += far(k);\n"
+           "  return s & 0; }\n")
+    return {"t.c": src}
+
+
+SHAPES.append((far_switch_program(80), [["85"], ["30"]]))
+
+
 def arg_sets(rng, k):
     return [[str(rng.randrange(-3, 20)), str(rng.randrange(-3, 20))][:rng.randrange(0, 3)] for _ in range(k)]
 
